@@ -154,3 +154,18 @@ Definition meets_b (r : rspec) (out : stype) : bool :=
   tys_eqb (cols out) (r_cols r)
   && match r_prefix r with Some p => Nat.eqb (prefix out) p | None => true end
   && Z.eqb (nshard out) (r_nshard r).
+
+Definition nilable_b (t : ty) : bool :=
+  match t with
+  | TSlice _ | TPtr _ | TFunc _ _ _ => true
+  | _ => is_iface t
+  end.
+
+Definition arg_fits_b (U : universe) (expect : ty) (have : option ty) : bool :=
+  match have with
+  | None => nilable_b expect
+  | Some h => if is_iface expect then implements U h expect else ty_eqb h expect
+  end.
+
+Definition invocation_schema_b (U : universe) (params : list ty) (args : list (option ty)) : bool :=
+  all2 (arg_fits_b U) params args.
